@@ -2,7 +2,7 @@
    fs <path|kind|payload> ...   kind d/f/l; path = enc segs joined by '/', '@' = root      -> ok
    cwd <path>                                                                            -> ok
    val <w|v|f> <s>      -> OK | R:DOTDOT | R:SYMLINK | R:RESOLVE | R:EXT
-   res <s>              -> OK <path> | ERR          (resolve of the absolute form of s)
+   res <s>              -> OK <path> | ERR NUL | ERR LOOP          (resolve of the absolute form of s)
    st <s>               -> <T|F|R><0|1><0|1>        (exists, is_symlink, is_dir of the absolute form of s)
    late <s>             -> 0|1
    name <s>             -> 0 | 1 <file> <file>
@@ -31,7 +31,10 @@ let handle l =
   | ["val"; w; s] ->
       let f = (match w with "w" -> validate_write | "v" -> validate_validate | "f" -> validate_fileops | _ -> failwith "variant") in
       pr_verdict (f !cur_fs !cur_cwd (str_of_tok s))
-  | ["res"; s] -> (match resolve !cur_fs (abs_tail !cur_cwd (str_of_tok s)) with ResOk p -> "OK " ^ tok_of_path p | ResErr -> "ERR")
+  | ["res"; s] -> let t = abs_tail !cur_cwd (str_of_tok s) in
+      (match resolve !cur_fs t with
+       | ResOk p -> "OK " ^ tok_of_path p
+       | ResErr -> if has_nul t then "ERR NUL" else (match realpath rp_fuel !cur_fs [] t with RLoop -> "ERR LOOP" | ROk _ -> "ERR ?"))
   | ["st"; s] -> let p = abs_tail !cur_cwd (str_of_tok s) in
       pr_ex (p_exists !cur_fs p) ^ bool_tok (p_is_symlink !cur_fs p) ^ bool_tok (p_is_dir !cur_fs p)
   | ["late"; s] -> bool_tok (late_recheck !cur_fs !cur_cwd (str_of_tok s))
